@@ -50,10 +50,18 @@ def stmt_hooks_for(contract, fnode, module):
             found = 0
             # a tuple key lists ALTERNATIVE source texts of the anchor statement (any one present suffices)
             alts = [" ".join(t.split()) for t in (text if isinstance(text, tuple) else (text,))]
+            # an alternative written "re:<regex>" matches the (whitespace-normalised) statement text by regular
+            # expression (fullmatch): anchors that survive edits of the statement's arguments, so that a changed
+            # statement is judged by the obligations instead of ending in "anchor not found" (checker error)
+            import re as _re
+            regs = [_re.compile(a[3:]) for a in alts if a.startswith("re:")]
             for n in ast.walk(fnode):
                 if isinstance(n, ast.stmt):
                     seg = module.segment(n)
-                    if seg is not None and " ".join(seg.split()) in alts:
+                    if seg is None:
+                        continue
+                    norm = " ".join(seg.split())
+                    if norm in alts or any(r.fullmatch(norm) for r in regs):
                         hooks.setdefault(id(n), {}).setdefault(when, []).append(fn)
                         found += 1
             if not found:
